@@ -116,6 +116,7 @@ impl Segment {
             self.log_path, self.index_path
         );
 
+        self.truncate_incomplete_tail().await;
         if self.log_reader.is_none() || self.index_reader.is_none() {
             self.initialize_writing().await?;
             self.initialize_reading().await?;
@@ -188,6 +189,79 @@ impl Segment {
             .fetch_add(messages_count, Ordering::SeqCst);
 
         Ok(())
+    }
+
+    /// After a crash the log file can end with a batch which has no index entry (or with a partially written one),
+    /// and - with the no-wait confirmation - the index can have entries for the batches which never reached the log.
+    /// Both files are cut back to the last batch that is complete in both of them, otherwise its offsets would be
+    /// assigned again, or the messages appended later would never be readable.
+    async fn truncate_incomplete_tail(&self) {
+        use tokio::io::{AsyncReadExt, AsyncSeekExt};
+        const INDEX_ENTRY_SIZE: usize = 16;
+        const BATCH_HEADER_SIZE: u64 = 24;
+        let Ok(index_bytes) = tokio::fs::read(&self.index_path).await else {
+            return;
+        };
+        let Ok(mut log_file) = tokio::fs::OpenOptions::new()
+            .read(true)
+            .write(true)
+            .open(&self.log_path)
+            .await
+        else {
+            return;
+        };
+        let Ok(metadata) = log_file.metadata().await else {
+            return;
+        };
+        let log_size = metadata.len();
+        let mut entries_count = index_bytes.len() / INDEX_ENTRY_SIZE;
+        let mut valid_log_size = 0;
+        while entries_count > 0 {
+            let entry = &index_bytes[(entries_count - 1) * INDEX_ENTRY_SIZE..entries_count * INDEX_ENTRY_SIZE];
+            let position = u32::from_le_bytes(entry[4..8].try_into().unwrap()) as u64;
+            if position + BATCH_HEADER_SIZE <= log_size {
+                let mut length = [0u8; 4];
+                if log_file
+                    .seek(std::io::SeekFrom::Start(position + 8))
+                    .await
+                    .is_ok()
+                    && log_file.read_exact(&mut length).await.is_ok()
+                {
+                    let batch_end = position + BATCH_HEADER_SIZE + u32::from_le_bytes(length) as u64;
+                    if batch_end <= log_size {
+                        valid_log_size = batch_end;
+                        break;
+                    }
+                }
+            }
+            entries_count -= 1;
+        }
+
+        if valid_log_size < log_size {
+            warn!(
+                "Log file: {} has {} bytes after the last indexed batch, they will be removed.",
+                self.log_path,
+                log_size - valid_log_size
+            );
+            let _ = log_file.set_len(valid_log_size).await;
+            let _ = log_file.sync_all().await;
+        }
+
+        let valid_index_size = (entries_count * INDEX_ENTRY_SIZE) as u64;
+        if valid_index_size < index_bytes.len() as u64 {
+            warn!(
+                "Index file: {} has entries (or a part of an entry) without a complete batch in the log, they will be removed.",
+                self.index_path
+            );
+            if let Ok(index_file) = tokio::fs::OpenOptions::new()
+                .write(true)
+                .open(&self.index_path)
+                .await
+            {
+                let _ = index_file.set_len(valid_index_size).await;
+                let _ = index_file.sync_all().await;
+            }
+        }
     }
 
     /// Save the segment state to disk.
